@@ -4,6 +4,7 @@ import (
 	"sort"
 	"strings"
 
+	"voicheck/edt"
 	"voicheck/esib"
 	"voicheck/load"
 )
@@ -60,6 +61,8 @@ func init() {
 		run.Rule("SIB-scan", "constant-time lookups scan every entry exactly once", 5*k)
 		run.Rule("SIB-clone", "Pornin prologues and FindShortVector passes are clones", 12*k)
 
+		convRule := run.Rule("SIB-conv-source", "every representation conversion set*/Set* between different point models computes all output coordinates from its source operand and never reads back a receiver coordinate (sibling uniformity of curve/models.go)", 10*k)
+		pairRule := run.Rule("DT-pairing", "the expanded Pippenger fallback keeps static scalars paired with the points of the static (expanded) operands and dynamic with dynamic", 3*k)
 		generic := c.Prog("purego")
 		pairSets := map[string]string{}
 		sampled := false
@@ -84,7 +87,13 @@ func init() {
 			du := esib.CheckDuality(run, p, "SIB-duality")
 			sc := esib.CheckMaskedScan(run, p, "SIB-scan")
 			cl := esib.CheckClones(run, p, "SIB-clone")
+			nconv := checkConversionsReadSource(p, convRule)
+			ecfg := &edt.Config{P: p, Mod: modFor(p)}
+			for _, s := range c03PairingSpecs(p.Obj("curve", "errVectorNotSupported") == nil) {
+				edt.Check(pairRule, ecfg, s)
+			}
 			if !sampled && id == "amd64" {
+				run.Sample(map[string]any{"config": id, "representation conversions checked": nconv})
 				sampled = true
 				run.Sample(map[string]any{"config": id, "dispatch": map[string]any{
 					"stubs": d.Stubs, "vector_only_set": len(d.VectorOnly), "guards": d.Guards, "dispatch_switches": d.Switches,
